@@ -95,10 +95,10 @@ void log_error(string file, string msg) { rec("LOGERR " + file + " " + msg); }
 
 #ifndef NO_ERROR_HANDLER
 string error_handler(mapping err, int caught) {
-  string s, t;
+  string s, t, tf;
   mixed *tr;
   int i;
-  eh_count++;
+  eh_count++; tf = "";
   s = "ERR caught=" + caught + " file=" + err["file"] + " line=" + err["line"]
     + " object=" + (err["object"] ? file_name(err["object"]) : "0")
     + " program=" + err["program"] + " msg=" + replace_string(err["error"], "\n", "") + " trace=";
@@ -107,8 +107,9 @@ string error_handler(mapping err, int caught) {
     for (i = 0; i < sizeof(tr); i++) {
       t = tr[i]["function"] + "@" + tr[i]["program"] + ":" + tr[i]["line"] + "(" + (tr[i]["object"] ? file_name(tr[i]["object"]) : "0") + ")";
       s += (i ? "|" : "") + t;
+      tf += (i ? "|" : "") + tr[i]["file"];
     }
-  rec(s);
+  rec(s + " tfiles=" + tf);
 #ifdef EH_RAISE
   if (EH_RAISE == 1 || (EH_RAISE == 2 && eh_count <= 2)) error("error_handler bomb\n");
 #endif
